@@ -814,7 +814,7 @@ func (w *Worker) runPath(prefix []Decision) {
 					}
 				case "deadlock":
 					outcome = "deadlock"
-					w.reportViolation("deadlock", "deadlock", r.Msg, "all goroutines blocked: "+r.Msg, nil)
+					w.reportViolation("deadlock", "deadlock", r.Msg, "all goroutines blocked: "+r.Msg+w.blockedSummary(), nil)
 				default:
 					outcome = "inconclusive"
 					w.E.addProblem(r.Kind + ": " + r.Msg + " [" + decString(w.taken) + "]")
